@@ -42,8 +42,48 @@ def _root_path(node):
             return None
 
 
+def alias_roots(engine):
+    """name -> root path of the dict whose entry the name may be (x = d[k], x = d.setdefault(k, v),
+    x = d.get(k), for k, x in d.items(), for x in d.values()): syntactic, whole function."""
+    cached = getattr(engine, "_alias_roots", None)
+    if cached is not None:
+        return cached
+    out = {}
+    fn = getattr(engine, "fn", None)
+    if fn is not None:
+        for n in ast.walk(fn):
+            if isinstance(n, ast.Assign) and len(n.targets) == 1 and isinstance(n.targets[0], ast.Name):
+                v = n.value
+                src = None
+                if isinstance(v, ast.Subscript):
+                    src = v.value
+                elif isinstance(v, ast.Call) and isinstance(v.func, ast.Attribute) and v.func.attr in ("get", "setdefault", "pop"):
+                    src = v.func.value
+                rp = _root_path(src) if src is not None else None
+                if rp:
+                    out.setdefault(n.targets[0].id, set()).add(rp)
+            elif isinstance(n, ast.For):
+                it = n.iter
+                if isinstance(it, ast.Call) and isinstance(it.func, ast.Attribute) and it.func.attr in ("items", "values"):
+                    rp = _root_path(it.func.value)
+                    if rp:
+                        for t in ast.walk(n.target):
+                            if isinstance(t, ast.Name):
+                                out.setdefault(t.id, set()).add(rp)
+    engine._alias_roots = out
+    return out
+
+
 def modified_paths(engine, body):
     names, paths = set(), set()
+    aliases = alias_roots(engine)
+
+    def through_alias(rp):
+        # a change made through a name that may be a dict entry is a change of that dict
+        if rp and rp[0] in aliases:
+            for root in aliases[rp[0]]:
+                paths.add(root)
+                through_alias(root)
 
     def targets(t):
         if isinstance(t, ast.Name):
@@ -57,6 +97,7 @@ def modified_paths(engine, body):
                 rp = _root_path(t)
             if rp:
                 paths.add(rp)
+                through_alias(rp)
         elif isinstance(t, ast.Starred):
             targets(t.value)
 
@@ -85,6 +126,7 @@ def modified_paths(engine, body):
                     continue
                 if meth in MUTATORS:
                     paths.add(rp)
+                    through_alias(rp)
                 else:
                     # contracted method with a modifies clause
                     c = engine.resolve_method_contract(rp, meth)
@@ -247,7 +289,7 @@ def run_loop(engine, st, stmt, ctl):
     s_it = s1.clone()
     s_it.assume(c)
     if engine.feasible(s_it):
-        iter_old = (dict(s_it.vars), dict(s_it.heap))
+        iter_old = (dict(s_it.vars), s_it.heap.plain())
         ctl.begin(s_it)
         for s2, oc in exec_body_with_cuts(engine, s_it, stmt, spec, k):
             if oc in ("normal", "continue"):
@@ -509,13 +551,46 @@ class SetCtl(LoopCtl):
         seen = st.vars[self.sname].c[0]
         return seen != self.it.dom
 
+    tracks_current = True
+
     def begin(self, st):
         seen = st.vars[self.sname].c[0]
         k = self.engine.fresh(st, "pick", self.stmt, Ty.IntS)
         st.assume(self.it.dom[k])
         st.assume(z3.Not(seen[k]))
         st.vars[self.kname] = V(Int, [k])
-        self.engine.assign_target(st, self.stmt.target, self.engine.box(st, self.it.elem(k)), self.stmt)
+        it_now = self.it
+        itx = self.stmt.iter
+        via = None
+        if isinstance(itx, ast.Call) and isinstance(itx.func, ast.Attribute) and itx.func.attr in ("items", "values", "keys") and not itx.args:
+            via, itx = itx.func.attr, itx.func.value
+        if isinstance(itx, (ast.Name, ast.Attribute)):
+            # the container may have been changed by earlier iterations: read the element from its
+            # current content; its key set must still be the one the iteration started with
+            now, _ = describe_iter(self.engine, st, self.stmt.iter)
+            if isinstance(now, SetIter):
+                if not now.dom.eq(self.it.dom):
+                    self.engine.oblige(st, now.dom == self.it.dom, f"the dict iterated at line {self.engine.line(self.stmt)} keeps its key set during the loop", "safety", self.stmt)
+                it_now = now
+        elem = self.engine.box(st, it_now.elem(k))
+        if via in ("items", "values"):
+            # the value bound by the loop IS the dict's entry (mutations through it reach the dict)
+            tgt = self.stmt.target
+            if via == "items" and isinstance(tgt, ast.Tuple) and len(tgt.elts) == 2 and isinstance(tgt.elts[1], ast.Name):
+                ev = self.engine.deref(st, elem)
+                parts = Ty.split(ev.t, ev.c)
+                kv, vv = parts[0], parts[1]
+                if isinstance(vv, V) and vv.t.mutable:
+                    vref = self.engine.view_of_entry(st, itx, k, vv)
+                    self.engine.assign_target(st, tgt.elts[0], self.engine.box(st, kv), self.stmt)
+                    st.vars[tgt.elts[1].id] = vref
+                    return
+            elif via == "values" and isinstance(tgt, ast.Name):
+                ev = self.engine.deref(st, elem)
+                if isinstance(ev, V) and ev.t.mutable:
+                    st.vars[tgt.id] = self.engine.view_of_entry(st, itx, k, ev)
+                    return
+        self.engine.assign_target(st, self.stmt.target, elem, self.stmt)
 
     def end(self, st):
         seen = st.vars[self.sname].c[0]
